@@ -37,7 +37,7 @@ DENSIFY_ATTRS = {"todense", "maybe_densify", "asnumpy", "toarray", "__array__",
 DENSIFY_NAMES = {"asnumpy", "_todense"}
 ALLOC = {"zeros", "ones", "full", "empty", "arange", "indices", "eye", "identity", "tile", "repeat",
          "zeros_like", "ones_like", "full_like", "empty_like", "meshgrid", "tri", "linspace", "bincount",
-         "outer", "kron"}
+         "outer", "kron", "broadcast_to", "broadcast_arrays"}
 NP_NAMES = {"np", "numpy"}
 
 
